@@ -528,6 +528,43 @@ PROPS["C07"] = {
                  "through hooks + property monitor on whole layouts",
 }
 
+C05_EVAL_MODULES = ["TaffyVerif.Props.C05"]
+C05_EVAL_THEOREMS = [
+    "C05.sel_extracted",
+    "C05.hiddenLayout_zero", "C05.hiddenLayout_zero_at",
+    "C05.HZ_init", "C05.hidden_zero", "C05.own_layout_zero", "C05.hidden_zero_evalNode", "C05.HZ_reads",
+    "C05.hidden_zero_pass",
+    "C05.SimNS_init", "C05.hidden_invisible", "C05.hidden_invisible_evalNode", "C05.SimNS_reads",
+    "C05.hidden_invisible_pass", "C05.HidRel_bare_leaf", "C05.HidRel_rfl", "C05.hidden_invisible_replace",
+    "C05.AgreeH_iff",
+]
+C06_EVAL_MODULES = ["TaffyVerif.Props.C06"]
+C06_EVAL_THEOREMS = [
+    "C06.abs_invisible_node", "C06.SimA_init", "C06.abs_invisible", "C06.abs_invisible_evalNode",
+    "C06.abs_invisible_realCache", "C06.caches_respect", "C06.exactMemo_respects'", "C06.SimA_reads",
+    "C06.abs_invisible_pass", "C06.abs_invisible_replace", "C06.AbsEquiv_bind", "C06.AgreeA_iff",
+]
+
+C01_EVAL_MODULES = ["TaffyVerif.Props.C01"]
+C01_EVAL_THEOREMS = [
+    "C01.noCache_output", "C01.noCache_shape", "C01.outFresh_fuel_mono", "C01.outputs_transparent_exact",
+    "C01.MemoValid_init", "C01.MemoValid_hidden", "C01.memo_eq_cachefree_output", "C01.modify_preserves_valid",
+    "C01.replace_preserves_valid", "C01.edit_preserves_valid", "C01.history_valid",
+    "C01.history_independent_outputs_exact", "C01.layouts_lockstep", "C01.single_pass_layouts_exact",
+    "C01.layouts_final_quiet", "C01.single_pass_layouts_quiet", "C01.history_layouts_quiet",
+    "C01.layouts_not_transparent_witness", "C01.witness_not_settled", "C01.witness_not_quiet",
+    "C01.selOK_real", "C01.selOK_documented", "C01.exAlgs_PLCovers", "C01.Example.quiet",
+]
+C17_THEOREMS = ["C17.dispatch_eq", "C17.hidden_mode_first", "C17.measure_only_childless_boxes", "C17.drivers_eq",
+                "C01.memo_eq_cachefree_output", "C01.outputs_transparent_exact"]
+
+C16_EVAL_MODULES = ["TaffyVerif.Props.C16"]
+C16_EVAL_THEOREMS = [
+    "C16.eval_erase", "C16.root_log_step", "C16.logInv_preserved", "C16.body_evals_le_stores", "C16.body_evals_le_queries",
+    "C16.logBound_step", "C16.logBound_many", "C16.leaf_calls_le_pow", "C16.leaf_calls_le_pow_depth",
+    "C16.keysIn_preserved", "C16.chain_const", "C16.chain_const_total", "C16.chain_leaf_const", "C16.nodes_exist",
+]
+
 HOOK_COMMITS = [
     "5207efe",
     "79decb2",
